@@ -132,6 +132,19 @@ fn parent(prop: &str, tier: &str) -> i32 {
     match status {
         Ok(st) => {
             if let Some(code) = st.code() {
+                if code == HANG_EXIT {
+                    // the worker's watchdog stopped the run on a case that does not return; the
+                    // case is in replay/<ID>/hang.json
+                    let ctx = ctx_for(prop, tier);
+                    let path = hang_path(prop);
+                    if std::path::Path::new(&path).exists() {
+                        write_min_evidence(&ctx, 1, &format!("the run was stopped on a call that does not return; see {}", path));
+                        println!("VIOLATION property={} replay={}", prop, path);
+                        return 1;
+                    }
+                    eprintln!("ENGINE-FAILURE the worker reported a hang but left no replay file");
+                    return 3;
+                }
                 return code;
             }
             // died on a signal: abort / stack overflow / OOM-kill.  Attribute it to a case.
@@ -484,6 +497,34 @@ fn replay(path: &str) -> i32 {
         eprintln!("sub-check {} cannot be replayed in-process (see the file for the command)", sub);
         return 2;
     };
+    if sub.ends_with(".hang") {
+        // the recorded case did not return: re-execute it on this thread under the same CPU-time
+        // watchdog (a range index, as opposed to a text, cannot be re-executed here)
+        let tid = current_tid();
+        let start = thread_cpu_ticks(tid);
+        let (prop2, path2) = (prop.clone(), path.to_string());
+        std::thread::spawn(move || {
+            let t0 = Instant::now();
+            loop {
+                std::thread::sleep(Duration::from_millis(200));
+                let hung = match (start, thread_cpu_ticks(tid)) {
+                    (Some(a), Some(b)) => b.saturating_sub(a) >= HANG_SECS * CLK_TCK || (t0.elapsed() >= Duration::from_secs(HANG_BLOCKED_SECS) && b.saturating_sub(a) < CLK_TCK),
+                    _ => t0.elapsed() >= Duration::from_secs(HANG_BLOCKED_SECS),
+                };
+                if hung {
+                    println!("replay: the call has not returned after {} s of CPU time", HANG_SECS);
+                    println!("VIOLATION property={} replay={}", prop2, path2);
+                    std::process::exit(1);
+                }
+            }
+        });
+        let r = props::replay_case(&ctx, sub_static, &case);
+        for (s, e, o) in &r {
+            println!("replay: [{}] expected {} | observed {}", s, e, o);
+        }
+        println!("replay: the recorded case returns now");
+        return 0;
+    }
     let after = v.get("after_input_hex").and_then(|x| x.as_str()).and_then(unhex);
     let run = |_: u8| match &after {
         Some(x) => std::thread::scope(|sc| sc.spawn(|| props::replay_case_after(&ctx, sub_static, x, &case)).join().unwrap()),
